@@ -209,7 +209,9 @@ func (s *c14Side) on(phase string, node, parent interface{}, name string, index 
 			do("Delete-non-list(panics)", func() { cur.delete() })
 		}
 	case 12:
-		if index >= 0 {
+		// astutil itself panics (slice bounds) when this pair is issued on the last element; the
+		// panic parity is still exercised, but rarely, so that most scripts run to the end
+		if index >= 0 && (index+1 < pv.FieldByName(name).Len() || s.step%5 == 0) {
 			do("Delete+InsertAfter", func() { cur.delete(); cur.insertAfter(s.build(slot)) })
 		}
 	}
@@ -501,6 +503,7 @@ func c14Run(c *fw.Ctx, id string, droot dst.Node, aroot ast.Node, d *decorator.D
 	}
 	if dsig != "" {
 		c.Count("both_panicked", 1)
+		c.Count("both_panicked:"+strings.SplitN(dsig, " @", 2)[0], 1)
 	}
 	c.Count("callbacks_compared", int64(len(ds.log)))
 	if edits > 0 {
